@@ -1,7 +1,8 @@
 """One Python process in which a whole history of Dippy calls is executed (C18).
 
 stdin : {"src": <repo>/src, "argv": [...], and either
-           "history": [query...], "final": [query...], "snapshot": bool                      (a history, then the query)
+           "history": [query...], "final": [query...], "snapshot": bool, "watch": [file...]   (a history, then the query;
+                                          "growth": per final query, what it appended to each watched file)
          or "pool": [query...], "seq": [pool index...], "residue": bool, "share_config": bool (a walk over a pool)
          or "forkpool": [query...]        (each query in its own child forked before anything was analysed)}
 stdout, history form:
@@ -187,14 +188,37 @@ for q in job["history"]:
     run(q)
     per_query.append(len([c for c in st.CALLS[n0:] if c[0] == LOADER]))
 answers = []
+watch = job.get("watch") or []
+growth = []
+
+
+def sizes():
+    out = []
+    for p in watch:
+        try:
+            out.append(os.path.getsize(p) if os.path.isfile(p) else 0)
+        except OSError:
+            out.append(0)
+    return out
+
+
 for q in job["final"]:
     n0 = len(st.CALLS)
+    s0 = sizes()
     answers.append(run(q))
     per_query.append(len([c for c in st.CALLS[n0:] if c[0] == LOADER]))
+    if watch:
+        g = []
+        for i, (a, b) in enumerate(zip(s0, sizes())):
+            if b != a:
+                with open(watch[i], "rb") as f:
+                    f.seek(min(a, b))
+                    g.append([i, a, b, f.read().decode("utf-8", "replace")])
+        growth.append(g)
 changed = []
 if before is not None:
     changed = st.diff(before, st.snapshot(roots()))[:60]
 print(json.dumps({
     "answers": answers, "loads": loads(), "loads_per_query": per_query,
-    "cache_info": cache_info(), "state": state(), "changed": changed, "shims": shims,
+    "cache_info": cache_info(), "state": state(), "changed": changed, "shims": shims, "growth": growth,
 }))
